@@ -298,6 +298,48 @@ def run(tier):
                 res.add_violation("param-not-applied:%s.%s:%s" % (ck, pn, "analyzer" if "analysis" in b else "cli"),
                                   "%s -@%s.%s=%s gives %d diagnostics, the in-process override gives %d" % (b, ck, pn, v, len(got), len(api)),
                                   {"binary": b, "checker": ck, "param": pn, "value": v, "only_frontend": [x for x in got if x not in api][:4], "only_api": [x for x in api if x not in got][:4], "dir": os.path.join(ws, "thr")})
+    # (e) target platform: the packages are loaded for GOARCH (build constraints, int and pointer width), so the
+    # sizes quoted in messages - and compared with the thresholds - must be that platform's. The same padded
+    # types are measured by a program compiled *for* 386 and executed; every front-end is run with GOARCH=386.
+    env386 = dict(vlib.goenv(), GOARCH="386")
+    rc, so, se = vlib.sh(["go", "run", "./sizeof"], cwd=ws, env=env386, timeout=600)
+    sizeof386 = {}
+    if rc == 0:
+        sizeof386 = {l.split()[0]: (int(l.split()[1]), int(l.split()[2])) for l in so.splitlines() if l.strip()}
+    if not sizeof386 or sizeof386 == sizeof:
+        res.inconclusive.append({"kind": "inconclusive", "what": "386 sizeof program did not run or gave host sizes: rc=%s %s" % (rc, se[-300:])})
+    else:
+        sel = "-enable=hugeParam,rangeValCopy,rangeExprCopy"
+        par = ["-@hugeParam.sizeThreshold=1", "-@rangeValCopy.sizeThreshold=1", "-@rangeExprCopy.sizeThreshold=1"]
+        cmds = {"go-critic": [os.path.join(bins, "go-critic"), "check", sel] + par + ["./thr"],
+                "gocritic": [os.path.join(bins, "gocritic"), "check", sel] + par + ["./thr"],
+                "go-critic-analysis": [os.path.join(bins, "go-critic-analysis"), sel, "-disable="] + par + ["./thr"]}
+        for b, cmd in sorted(cmds.items()):
+            rc, so, se = vlib.sh(cmd, cwd=ws, env=env386, timeout=600)
+            seen = 0
+            for m in map(line_re.match, se.splitlines()):
+                if not m or os.path.basename(m.group(1)) != "thr.go":
+                    continue
+                fam_name = fam_of_line.get(int(m.group(2)))
+                if not fam_name or fam_name[0] not in ("hpP", "rvP", "reP"):
+                    continue
+                ck = {"hpP": "hugeParam", "rvP": "rangeValCopy", "reP": "rangeExprCopy"}[fam_name[0]]
+                if m.group(4) != ck:
+                    continue
+                mm = re.search(r"\((\d+) bytes\)|copies (\d+) bytes", m.group(5))
+                if not mm:
+                    continue
+                got = int(mm.group(1) or mm.group(2))
+                want = sizeof386[fam_name[1]][1 if fam_name[0] == "reP" else 0]
+                seen += 1
+                res.count("size_message_checks_386")
+                if got != want:
+                    res.add_violation("size-in-message-other-platform:%s:%s" % ("analyzer" if "analysis" in b else "cli", ck),
+                                      "GOARCH=386 %s: %s says %d bytes for %s%s; unsafe.Sizeof in a program compiled for 386 says %d (host: %d)" % (
+                                          b, ck, got, "[3]" if fam_name[0] == "reP" else "", PADDED[fam_name[1]], want, sizeof[fam_name[1]][1 if fam_name[0] == "reP" else 0]),
+                                      {"binary": b, "checker": ck, "type": PADDED[fam_name[1]], "message": m.group(5), "dir": os.path.join(ws, "thr"), "cmd": "GOARCH=386 " + " ".join(cmd)})
+            if seen < 20:
+                res.inconclusive.append({"kind": "inconclusive", "what": "GOARCH=386 %s: only %d size messages on the padded types (rc=%s): %s" % (b, seen, rc, se[-300:])})
     for (ck, pn), tv in toggles.items():
         if True in tv and False in tv:
             if tv[True] != tv[False]:
@@ -308,10 +350,12 @@ def run(tier):
         "evaluations": res.counts.get("boundary_checks", 0) + res.counts.get("monotonicity_checks", 0) + res.counts.get("size_message_checks", 0) + res.counts.get("front_end_param_probes", 0) * 3,
         "distinct_nontrivial": len(res.sets.get("boundary_cases", ())),
         "rule": "constructs of measure n (byte-array params, ranged structs/arrays, n results, n-statement branches, n-block if-else chains, n-rune commented-out code) x thresholds t around every boundary; "
-                "oracle = documented direction predicate per (n,t) (implies unit step and monotonicity), set inclusion between neighbouring thresholds, '(N bytes)' vs a compiled unsafe.Sizeof program for padded structs, "
+                "oracle = documented direction predicate per (n,t) (implies unit step and monotonicity), set inclusion between neighbouring thresholds, '(N bytes)' vs a compiled unsafe.Sizeof program for padded structs (host platform in-process; GOARCH=386 through all three front-ends against the same program compiled for 386), "
                 "and equality of in-process override, both CLIs and the analyzer flag; distinct_nontrivial = distinct (family, n, t) boundary cases",
         "bool_params_whose_toggle_changed_output": sorted(res.sets.get("bool_params_whose_toggle_changed_output", ())),
         "sizeof": sizeof,
+        "sizeof_386": sizeof386,
+        "size_message_checks_386": res.counts.get("size_message_checks_386", 0),
     }
     floor = res.counts.get("boundary_checks", 0) >= 500 and len(res.sets.get("bool_params_whose_toggle_changed_output", ())) >= 5 and res.counts.get("size_message_checks", 0) >= 25
     vlib.finish(res, "exploration", tier, cov, floor_ok=floor, floor_msg=str({k: v for k, v in res.counts.items()}),
